@@ -28,7 +28,7 @@ KEYS = {
   'mv':    {'res': (['C02', 'C10'], []), 'dump': (['C02', 'C09', 'C10'], []), 'fen': ([], ['C02']), 'legal': (['C01'], ['C01', 'C10']),
             'fullhash': (['C09'], []), 'str': (['C03'], [])},
   'mvs':   {'res': (['C03'], []), 'dump': (['C03'], [])},
-  'play':  {'res': (['C03'], []), 'dump': (['C03', 'C09', 'C10'], []), 'fen': ([], ['C03']), 'hist': (['C09', 'C03'], []), 'fullhash': (['C09'], [])},
+  'play':  {'res': (['C03'], []), 'dump': (['C03', 'C09', 'C10'], []), 'fen': ([], ['C03']), 'board': ([], ['C03']), 'hist': (['C09', 'C03'], []), 'fullhash': (['C09'], [])},
   'null':  {'null': (['C09', 'C10'], []), 'nullfull': (['C09'], []), 'back': (['C09', 'C10'], []), 'same': (['C09', 'C10'], [])},
   'fen':   {'res': (['C11'], []), 'fen': (['C11'], ['C11']), 'dump': (['C11', 'C09'], [])},
   'perft': {'perft': (['C01'], ['C01'])},
